@@ -2,6 +2,7 @@
    current fields only, whatever was observed before; consequences through the C07 / C20 theorems. *)
 From PV Require Import Base.Bytes Base.Outcome Base.Varint Gen.GenTxConsts Model.TxWire Model.TxCheck Model.TxObject
   Spec.TxWireSpec Spec.TxCheckSpec Proofs.TxWireP Proofs.TxCheckP.
+From Coq Require Import Lia.
 Local Open Scope outcome_scope.
 
 (* generated scans: no observer method stores into its object, at module level or behind a caching decorator; every
@@ -100,4 +101,95 @@ Proof.
   intros t D S L. rewrite run_last, last_last. cbn [observe]. fold t.
   now rewrite (check_accepts mm ms _ t b (seq_ids_consistent t) D S L).
 Qed.
+(* ---- worlds of several objects: what is done to one object is invisible on every other one --------------------- *)
+Lemma nth_error_wupd_same k ob' (w : list txobj) : (k < length w)%nat -> nth_error (wupd k ob' w) k = Some ob'.
+Proof. revert k; induction w as [|x r IH]; intros [|k] L; cbn in *; try lia; auto. apply IH. lia. Qed.
+Lemma nth_error_wupd_other k j ob' (w : list txobj) : j <> k -> nth_error (wupd k ob' w) j = nth_error w j.
+Proof. revert k j; induction w as [|x r IH]; intros [|k] [|j] N; cbn; auto; try congruence. Qed.
+
+Definition on_obj (k : nat) {A} (x : nat * A) : bool := Nat.eqb (fst x) k.
+
+(* one step of the single-object semantics, as a pair *)
+Definition step1 (o : op) (ob : txobj) : outcome oval * txobj :=
+  match o with
+  | Obs o' => (observe H o' ob, ob)
+  | Mut m => match apply_mut m ob with
+             | Ret ob' => (Ret RNone, ob')
+             | Raise e => (Raise e, ob)
+             | OutOfFuel => (OutOfFuel, ob)
+             end
+  end.
+Lemma run_cons o r ob : run H (o :: r) ob = fst (step1 o ob) :: run H r (snd (step1 o ob)).
+Proof. destruct o as [m|o]; cbn [run step1]; [destruct (apply_mut m ob)|]; reflexivity. Qed.
+Lemma wrun_cons k o r w : wrun H ((k, o) :: r) w = (k, fst (wstep H k o w)) :: wrun H r (snd (wstep H k o w)).
+Proof. cbn [wrun]. destruct (wstep H k o w). reflexivity. Qed.
+Lemma wstep_same k o (w : list txobj) ob : nth_error w k = Some ob ->
+  fst (wstep H k o w) = fst (step1 o ob) /\ nth_error (snd (wstep H k o w)) k = Some (snd (step1 o ob)).
+Proof.
+  intros Hk. unfold wstep, step1. rewrite Hk. destruct o as [m|o]; [|split; [reflexivity|exact Hk]].
+  destruct (apply_mut m ob) as [ob'|e|]; cbn [fst snd]; split; auto.
+  apply nth_error_wupd_same. apply nth_error_Some. congruence.
+Qed.
+Lemma wstep_other j k o (w : list txobj) : j <> k -> nth_error (snd (wstep H j o w)) k = nth_error w k.
+Proof.
+  intros N. unfold wstep. destruct (nth_error w j) as [obj|]; [|reflexivity].
+  destruct o as [m|o]; [|reflexivity]. destruct (apply_mut m obj); cbn [snd]; auto.
+  apply nth_error_wupd_other. congruence.
+Qed.
+
+(* the trace seen on object k in ANY interleaving with operations on other objects is the trace of k's own operations
+   applied to k alone *)
+Lemma world_projection ops : forall (w : list txobj) k ob, nth_error w k = Some ob ->
+  map snd (filter (on_obj k) (wrun H ops w)) = run H (map snd (filter (on_obj k) ops)) ob.
+Proof.
+  induction ops as [|[j o] r IH]; intros w k ob Hk; [reflexivity|].
+  rewrite wrun_cons.
+  assert (F1 : forall A (x : A) l, filter (on_obj k) ((j, x) :: l)
+                = if Nat.eqb j k then (j, x) :: filter (on_obj k) l else filter (on_obj k) l) by reflexivity.
+  rewrite !F1.
+  destruct (Nat.eqb_spec j k) as [->|N].
+  - destruct (wstep_same k o w ob Hk) as [E1 E2]. cbn [map snd]. rewrite run_cons, E1. f_equal. now apply IH.
+  - apply IH. rewrite wstep_other by exact N. exact Hk.
+Qed.
+
+(* in particular: operations on OTHER objects never change what object k shows *)
+Lemma world_noninterference ops (w : list txobj) k ob o : nth_error w k = Some ob ->
+  (forall x, In x ops -> fst x <> k) ->
+  map snd (filter (on_obj k) (wrun H (ops ++ [(k, Obs o)]) w)) = [observe H o ob].
+Proof.
+  intros Hk Hn. rewrite (world_projection _ w k ob Hk), filter_app.
+  assert (E : filter (on_obj k) ops = []).
+  { clear -Hn. induction ops as [|x r IH]; [reflexivity|]. cbn [filter]. unfold on_obj at 1.
+    destruct (Nat.eqb_spec (fst x) k) as [E|_]; [exfalso; apply (Hn x); [now left|exact E]|].
+    apply IH. intros y Hy. apply Hn. now right. }
+  rewrite E. cbn [app].
+  assert (F : filter (on_obj k) [(k, Obs o)] = [(k, Obs o)]).
+  { cbn [filter]. unfold on_obj. cbn [fst]. now rewrite Nat.eqb_refl. }
+  rewrite F. reflexivity.
+Qed.
+
+(* extending a witness in place is the assignment of the extended list (nothing else moves) *)
+Lemma upd_ext {A} i (f g : A -> A) l x : nth_error l i = Some x -> f x = g x -> upd i f l = upd i g l.
+Proof.
+  revert i; induction l as [|y r IH]; intros [|i] Hn E; cbn [nth_error upd] in *; try discriminate.
+  - inversion Hn; subst. now rewrite E.
+  - now rewrite (IH i Hn E).
+Qed.
+Lemma upd_none {A} i (f : A -> A) l : nth_error l i = None -> upd i f l = Raise E_INDEX.
+Proof.
+  revert i; induction l as [|y r IH]; intros [|i] Hn; cbn [nth_error upd] in *; try discriminate; try reflexivity.
+  now rewrite (IH i Hn).
+Qed.
+Lemma extend_witness_spec i w ob : apply_mut (MExtendWitness i w) ob =
+  match nth_error (tx_ins (ob_tx ob)) i with
+  | Some x => apply_mut (MAssignWitness i (ti_witness x ++ w)) ob
+  | None => Raise E_INDEX
+  end.
+Proof.
+  unfold apply_mut. destruct (nth_error (tx_ins (ob_tx ob)) i) as [x|] eqn:E.
+  - now rewrite (upd_ext i (fun x0 => mk_txin (ti_hash x0) (ti_index x0) (ti_script x0) (ti_sequence x0) (ti_witness x0 ++ w))
+                           (fun x0 => mk_txin (ti_hash x0) (ti_index x0) (ti_script x0) (ti_sequence x0) (ti_witness x ++ w)) _ x E eq_refl).
+  - now rewrite (upd_none i _ _ E).
+Qed.
+
 End Hist.
